@@ -1,0 +1,79 @@
+//! Read-only verification hooks, compiled only with `--cfg hashbrown_verif`.
+//!
+//! Nothing in here is reachable in a normal build and nothing in here writes
+//! to a table: the functions only copy out the bookkeeping fields and the
+//! control bytes so that an external checker can validate them.
+
+use super::{Allocator, Group, RawTable};
+use crate::alloc::vec::Vec;
+
+/// Snapshot of the bookkeeping state of a `RawTable`.
+#[derive(Clone, Debug, PartialEq, Eq)]
+pub struct VerifDump {
+    /// `buckets - 1`.
+    pub bucket_mask: usize,
+    /// Number of elements the table believes it holds.
+    pub items: usize,
+    /// Number of never-used slots that may still be consumed.
+    pub growth_left: usize,
+    /// Width in bytes of the group scanner compiled in.
+    pub group_width: usize,
+    /// Copy of all control bytes (`buckets + group_width` of them; only
+    /// `group_width` for the unallocated singleton).
+    pub ctrl: Vec<u8>,
+    /// Whether this is the unallocated static singleton.
+    pub is_empty_singleton: bool,
+    /// `size_of::<T>()`.
+    pub elem_size: usize,
+    /// Alignment of the control bytes in the allocation.
+    pub ctrl_align: usize,
+}
+
+impl<T, A: Allocator> RawTable<T, A> {
+    /// Copies out the bookkeeping fields and the control bytes.
+    pub fn verif_dump(&self) -> VerifDump {
+        let inner = &self.table;
+        let singleton = inner.is_empty_singleton();
+        let n = if singleton {
+            Group::WIDTH
+        } else {
+            inner.num_ctrl_bytes()
+        };
+        let mut ctrl = Vec::with_capacity(n);
+        for i in 0..n {
+            // SAFETY: the static singleton group holds `Group::WIDTH` bytes, an
+            // allocated table holds `num_ctrl_bytes()` control bytes.
+            ctrl.push(unsafe { *inner.ctrl.as_ptr().add(i) });
+        }
+        VerifDump {
+            bucket_mask: inner.bucket_mask,
+            items: inner.items,
+            growth_left: inner.growth_left,
+            group_width: Group::WIDTH,
+            ctrl,
+            is_empty_singleton: singleton,
+            elem_size: core::mem::size_of::<T>(),
+            ctrl_align: Self::TABLE_LAYOUT.ctrl_align,
+        }
+    }
+
+    /// Returns `(bucket index, &element)` for every bucket whose control byte
+    /// says it is full, found by a plain byte-by-byte walk that does not use
+    /// `items` nor the group scanner.
+    pub fn verif_full_buckets(&self) -> Vec<(usize, &T)> {
+        let mut out = Vec::new();
+        if self.table.is_empty_singleton() {
+            return out;
+        }
+        for i in 0..self.table.buckets() {
+            // SAFETY: `i < buckets`, and a full control byte means the slot is
+            // initialised.
+            unsafe {
+                if self.table.is_bucket_full(i) {
+                    out.push((i, self.bucket(i).as_ref()));
+                }
+            }
+        }
+        out
+    }
+}
